@@ -474,6 +474,7 @@ def effect_tokens(F, E, f, depth=0, seen=None):
         if not n: continue
         k = n['k']
         if k == 'ref' and n.get('dk') == 'enum': toks.add('enum:' + n['n'])
+        elif k == 'ref' and n.get('dk') in ('method', 'func') and n.get('n') in PROCESS_ENTRY: toks.add('process:' + n['n'])    # &M::process_event_internal taken to be stored (bind) = calling it from a stored functor
         elif k == 'asg':
             m = f.base_member(n['lhs'])
             if m == FM:
@@ -493,6 +494,16 @@ def effect_tokens(F, E, f, depth=0, seen=None):
                 if g is not None and g.blocks and backend_of(g) == backend_of(f):
                     toks |= effect_tokens(F, E, g, depth + 1, seen)
             elif 'fk' not in n: toks.add('indirect-call')
+        elif k in ('ctor', 'cast', 'InitListExpr', 'tmp', 'lambda') and isinstance(n.get('t'), int):
+            # a functor object / closure of the library built here (to be stored or passed on): what its call operator does belongs
+            # to this function's behaviour, wherever the code was written (`bind(pf, this, e, SOURCE)` vs a struct with operator())
+            if not hasattr(F, '_callops'):
+                F._callops = {}
+                for g in F.funcs:
+                    if g.n == 'operator()' and g.blocks and g.file.startswith('boost/msm/back'):
+                        F._callops.setdefault(strip_cvref(F.class_type(g) or ''), []).append(g)
+            for g in F._callops.get(strip_cvref(F.strs[n['t']]), ()):
+                if backend_of(g) == backend_of(f): toks |= effect_tokens(F, E, g, depth + 1, seen)
     return toks
 
 @rule('siblings')
